@@ -111,6 +111,13 @@ def mc_configs(tier: str) -> List[Dict[str, Any]]:
         for i, prot in enumerate(([], ["slot"], ["slot", "a"])):
             out.append(make_config(f"T1-{f}-p{i}", ["r1"], {"r1": "L1"}, {"r1": f}, prot, classes=("A", "B", "C"),
                                    ops=BASE_OPS + ["decorate"], est=4))
+    # S1: like T1 with 2 classes and state-changing calls only - the graphs all call sequences are run on
+    for f, p in (("short", 1), ("component", 1)) + (() if quick else (("short", 0),)):
+        out.append(make_config(f"S1-{f}-p{p}", ["r1"], {"r1": "L1"}, {"r1": f}, ["slot"] if p else [],
+                               ops=["register", "unregister", "clear"], est=1))
+    if not quick:
+        out.append(make_config("S3-short-p1", ["r1"], {"r1": "L1"}, {"r1": "short"}, ["slot"], classes=("A", "B", "C"),
+                               ops=["register", "unregister", "clear"], est=1))
     # T2: two registries, private libraries
     t2 = [("component", "component", 1, 26), ("component", "short", 1, 12), ("short", "short", 1, 5),
           ("component", "short", 0, 47)]
@@ -201,7 +208,6 @@ class World:
         self.libof = dict(cfg["libof"])
         pre, prot = dict(cfg["pre"]), dict(cfg["prot"])
         self.libs, self.regs, self.cur = {}, {}, {}
-        self._n0 = len(getattr(L["cr"], "all_registries", []))
         for l in sorted(set(self.libof.values())):
             lib = L["Library"]()
             for t, owner in pre[l]:
@@ -450,6 +456,52 @@ def _config_task(arg):
             "hashes": hashes, "sample": sample, "walk": wres}
 
 
+def _seq_task(arg):
+    """All sequences of exactly `depth` state-changing calls that start with the `first`-th call of the
+    initial world (shorter sequences are their prefixes), each on fresh real objects, compared with the
+    exported graph after every call."""
+    cfg, path, first, depth, _n_first = arg
+    g = _GRAPHS.get(cfg["id"]) or Graph(cfg, tlc.read_ndjson(Path(path)))
+    mut: Dict[str, List[Tuple[str, str]]] = {}
+
+    def calls_from(s):
+        if s not in mut:
+            mut[s] = [k for k in g.by_pre[s] if g.groups[k][0]["call"]["op"] in MUTATING]
+        return mut[s]
+
+    n = 0
+    bad = []
+    if len(calls_from(g.init)) != arg[4]:
+        raise MachineryError(f"{cfg['id']}: {len(calls_from(g.init))} state-changing calls, expected {arg[4]}")
+    seqs = [[calls_from(g.init)[first]]]           # iterative DFS over sequences of graph edges
+    while seqs:
+        seq = seqs.pop()
+        s = g.init
+        for k in seq:
+            s = g.groups[k][0]["_post"]
+        if len(seq) < depth:
+            seqs.extend(seq + [k] for k in calls_from(s))
+            continue
+        n += 1
+        w = World(cfg)
+        try:
+            for i, k in enumerate(seq):
+                group = g.groups[k]
+                obs = w.call(group[0]["call"])
+                proj = w.project()
+                j, fails = judge(obs, proj, group)
+                if j is None or len(group) != 1:
+                    if len(bad) < 20:
+                        bad.append({"stage": "sequence", "calls": [g.groups[x][0]["call"] for x in seq[: i + 1]],
+                                    "failing": fails, "observed": {"out": obs, "state": proj},
+                                    "admitted": [{x: row[x] for x in ("res", "cls", "yes", "all", "post", "maybe")}
+                                                 for row in group], "key": None})
+                    break
+        finally:
+            w.dispose()
+    return {"cid": cfg["id"], "sequences": n, "bad": bad}
+
+
 def walk(g: Graph, rnd: random.Random, steps: int) -> Dict[str, Any]:
     """A long walk over the exported graph on one persistent set of real objects."""
     w = World(g.cfg)
@@ -543,8 +595,10 @@ def case_of(g: Graph, k, extra=None) -> Dict[str, Any]:
 
 
 def spec_to_code(chk: Check, cfgs: List[Dict[str, Any]], procs: int, walk_steps: int, nbins: int = 4,
-                 cache: bool = False) -> None:
-    """TLC export, then one worker task per configuration (load graph, replay, walk)."""
+                 cache: bool = False, seq: Optional[Dict[str, int]] = None) -> None:
+    """TLC export, then one worker task per configuration (load graph, replay, walk); `seq` maps
+    configuration ids (static formatter: every (world, call) has one admitted outcome) to the depth
+    up to which ALL sequences of state-changing calls are replayed."""
     global _GRAPHS
     import zlib
     key = canon([c["id"] for c in cfgs])
@@ -556,12 +610,32 @@ def spec_to_code(chk: Check, cfgs: List[Dict[str, Any]], procs: int, walk_steps:
             _EXPORT_CACHE[key] = ex
     tasks = [(c, ex["files"][c["id"]], chk.seed * 7907 + zlib.crc32(c["id"].encode()), walk_steps)
              for c in sorted(cfgs, key=lambda c: -c["est"])]
+    stasks = []
+    want_seqs = 0
+    for c in cfgs:
+        if seq and c["id"] in seq:
+            n_first = len(c["names"]) * len(c["classes"]) * (2 if "decorate" in c["ops"] else 1) + len(c["names"]) + 1
+            stasks += [(c, ex["files"][c["id"]], i, seq[c["id"]], n_first) for i in range(n_first)]
+            want_seqs += n_first ** seq[c["id"]]      # every call is enabled in every world
     if procs > 1:
         with _pool(procs) as pool:
             results = pool.map(_config_task, tasks, chunksize=1)
+            sres = pool.map(_seq_task, stasks, chunksize=1)
     else:
         results = [_config_task(t) for t in tasks]
+        sres = [_seq_task(t) for t in stasks]
     results.sort(key=lambda r: r["cid"])
+    if sum(r["sequences"] for r in sres) != want_seqs:
+        raise MachineryError(f"{sum(r['sequences'] for r in sres)} sequences replayed, {want_seqs} expected")
+    for res in sres:
+        chk.add("sequences_replayed", res["sequences"])
+        chk.evals += res["sequences"]
+        cfg = next(c for c in cfgs if c["id"] == res["cid"])
+        for b in res["bad"]:
+            chk.violation({"kind": "trace", "cfg": cfg, "events": b["calls"]},
+                          {x: v for x, v in b.items() if x != "calls"}, key=None)
+    if seq:
+        chk.cov["sequence_depth"] = dict(seq)
     if sum(r["rows"] for r in results) != ex["rows"]:
         raise MachineryError("rows loaded by the workers differ from rows exported")
     unexplained = []
@@ -756,7 +830,7 @@ def impl_model(chk: Check, cfgs: List[Dict[str, Any]]) -> None:
         cf, cfgp = w / f"cfgs{i}.ndjson", w / f"impl{i}.cfg"
         tlc.write_ndjson(cf, cs)
         cfgp.write_text(IMPL_CFG.format(fix=fix))
-        r = tlc.run("MC_C15B", str(cfgp), env={"CFG": str(cf)}, workers=2, heap="2g")
+        r = tlc.run("MC_C15B", str(cfgp), env={"CFG": str(cf)}, workers=1, heap="2g")   # 1: same counterexample every run
         if not r.ok and not r.violated:
             tlc.require_ok(r, f"MC_C15B {name}")
         return r
@@ -812,8 +886,8 @@ def impl_model(chk: Check, cfgs: List[Dict[str, Any]]) -> None:
 
 # ================================================================ entry points
 def core(chk: Check, cfgs, procs: int, walk_steps: int, ntraces: int, length: int, nbins: int = 4,
-         cache: bool = False, impl: bool = False) -> None:
-    spec_to_code(chk, cfgs, procs, walk_steps, nbins=nbins, cache=cache)
+         cache: bool = False, impl: bool = False, seq: Optional[Dict[str, int]] = None) -> None:
+    spec_to_code(chk, cfgs, procs, walk_steps, nbins=nbins, cache=cache, seq=seq)
     validate_traces(chk, ntraces, length)
     if impl:
         impl_model(chk, cfgs)
@@ -827,7 +901,9 @@ def run(tier: str) -> int:
     quick = tier == "quick"
     cfgs = mc_configs(tier)
     core(chk, cfgs, procs=6, walk_steps=3000 if quick else 20000,
-         ntraces=300 if quick else 3000, length=40 if quick else 80, nbins=4 if quick else 8, impl=True)
+         ntraces=300 if quick else 3000, length=40 if quick else 80, nbins=4 if quick else 8, impl=True,
+         seq={"S1-short-p1": 5, "S1-component-p1": 5} if quick else
+             {"S1-short-p1": 6, "S1-component-p1": 6, "S1-short-p0": 6, "S3-short-p1": 5})
     chk.cov["configurations"] = [c["id"] for c in cfgs]
     chk.cov["exhaustive"] = True
     chk.cov["rule"] = (
@@ -964,7 +1040,7 @@ def _corruption_tests() -> int:
 
 def selftest(tier: str) -> int:
     """In-process mutation probes (never touch /repo) + corrupted-trace tests."""
-    from contextlib import ExitStack, contextmanager
+    from contextlib import contextmanager
     from . import boot
     from .core import run_probes
     boot.setup()
@@ -976,19 +1052,17 @@ def selftest(tier: str) -> int:
 
     @contextmanager
     def patch(*triples):
-        with ExitStack() as st:
-            olds = []
-            for obj, name, new in triples:
-                olds.append((obj, name, getattr(obj, name)))
-                setattr(obj, name, new)
-            try:
-                yield
-            finally:
-                for obj, name, old in reversed(olds):
-                    setattr(obj, name, old)
+        olds = []
+        for obj, name, new in triples:
+            olds.append((obj, name, getattr(obj, name)))
+            setattr(obj, name, new)
+        try:
+            yield
+        finally:
+            for obj, name, old in reversed(olds):
+                setattr(obj, name, old)
 
-    o_init, o_register, o_unregister, o_clear, o_all, o_get = (CR.__init__, CR.register, CR.unregister, CR.clear,
-                                                               CR.all, CR.get)
+    o_init, o_register, o_unregister, o_clear, o_all = CR.__init__, CR.register, CR.unregister, CR.clear, CR.all
 
     def tag_deleted_while_used():
         def unregister(self, name):
